@@ -658,3 +658,8 @@ func TestWeight2Exhaustive(t *testing.T) {
 		},
 	})
 }
+
+// FuzzGenE2E: the structured generator driven by Go's coverage-guided fuzzer (thorough tier).
+func FuzzGenE2E(f *testing.F) {
+	h.FuzzSub(f, h.Sub[e2eCase]{Prop: "C16", Name: "e2e", Gen: genE2E, Check: checkE2E})
+}
